@@ -28,7 +28,7 @@ from pvm.gen import c38_grids as cg
 from pvm.gen import mdg as gm
 
 PROP = "C38"
-N = {"quick": 30, "thorough": 600}
+N = {"quick": 20, "thorough": 600}
 WORKERS = {"quick": 4, "thorough": 16}
 TIMEOUT = {"quick": 600, "thorough": 3000}
 CASE_TIMEOUT = 300.0
